@@ -317,8 +317,19 @@ func (p *Program) VerifyFunction(u *Universe, fn *ssa.Function) *VC {
 			}
 			p.ensureModsets(u)
 			ims := p.modsetNoFix(u, fn)
-			if rm := p.regionModset(u, fn); rm != nil {
-				ims = rm // writes that only reach objects allocated during the call are level 1
+			if rm := p.regionModset(u, fn); rm != nil && !ims.all {
+				// refinement only: the contract-based mod-set (callee contracts decide a call's frame) is
+				// kept, but a variable whose writes all reach objects allocated during the call becomes
+				// level 1. The region analysis looks through interface contracts into implementations
+				// (e.g. lazy caches behind a pure interface spec), so it must never ADD variables here.
+				ref := newModSet()
+				for v, l := range ims.vars {
+					if rl, ok := rm.vars[v]; ok && rl < l {
+						l = rl
+					}
+					ref.vars[v] = l
+				}
+				ims = ref
 			}
 			ia, iv := ims.all, ims.names()
 			fa, _ := p.expandAssigns(u, e.con.FreshAssigns)
